@@ -9,7 +9,7 @@ import numpy as np
 
 from vf import rewrites as R
 from vf.common import exc_site, short_tb
-from vf.gen import Prog, ReplayRefused
+from vf.gen import OPS, Prog, ReplayRefused
 from vf.oracles import same
 from vf.util import closure_has_zero, tally_ops, tally_prog
 
@@ -212,12 +212,29 @@ def check_program(g, v, ctx):
     return problems
 
 
+GRID_OPS = [n for n, o in OPS.items() if o.w > 0 and not (o.tags & {"window", "overlap", "reduction", "setitem"})]
+
+
 def run_one(rng, ctx):
     big = ctx.tier == "thorough"
-    g = Prog(rng, max_extent=rng.choice([7, 9, 12]) if big else 7, max_size=6000 if big else 3000, weights=WEIGHTS)
-    g.grow(rng.randint(2, 10 if big else 7))
+    grid_case = rng.random() < 0.2
+    if grid_case:
+        # a grid-sensitive root consumer: map_blocks with a block-local kernel over a subtree of pushdown-able operations
+        # (no window operations: their native-chunk substitution is an algebraic rewrite the grid gate does not cover)
+        g = Prog(rng, max_extent=7, max_size=3000, weights=WEIGHTS, ops=GRID_OPS)
+        g.grow(rng.randint(2, 6))
+        cands = [v for v, s in zip(g.vars, g.steps) if s["in"] and v.da is not None and v.ndim >= 1]
+        v = g.step_on(rng.choice(cands), "map_blocks_local") if cands else None
+        if v is None or g.steps[v.id]["op"] != "map_blocks_local":
+            ctx.count("grid_case_not_built")
+            return
+        ctx.count("grid_sensitive_root_consumers")
+        non_leaf = [v]
+    else:
+        g = Prog(rng, max_extent=rng.choice([7, 9, 12]) if big else 7, max_size=6000 if big else 3000, weights=WEIGHTS)
+        g.grow(rng.randint(2, 10 if big else 7))
+        non_leaf = [v for v, s in zip(g.vars, g.steps) if s["in"]]
     tally_prog(g, ctx)
-    non_leaf = [v for v, s in zip(g.vars, g.steps) if s["in"]]
     if not non_leaf:
         return
     v = non_leaf[-1]
